@@ -99,6 +99,9 @@ class PGen(object):
         self.mode = rng.choice(['zero', 'flat', 'prop'])
         self.n = 0
         self.queue = []
+        # two instruments traded and marked identically (a dual listing, two share classes, a duplicated ticker): the
+        # second asset mirrors every fill and mark of the first, so their per-position figures are bit-identical
+        self.twin = len(self.assets) >= 2 and rng.random() < 0.2
 
     def adv(self):
         self.t = self.t + pd.Timedelta(self.rng.choice([
@@ -165,8 +168,17 @@ class PGen(object):
         if r < 0.14 and p.cash > 0:
             return ['pf_wd', 'P', self.adv(), float(p.cash) * rng.choice([0.0, 0.25, 1.0])]
         if r < 0.34 and held:
-            return ['pf_mark', 'P', rng.choice(held), bw.rand_price(rng), self.adv()]
+            a_ = rng.choice(held)
+            px_ = bw.rand_price(rng)
+            if self.twin and a_ in self.assets[:2]:
+                a_, b_ = self.assets[0], self.assets[1]
+                if a_ in held and b_ in held:
+                    self.queue.append(['pf_mark', 'P', b_, px_, self.adv()])
+                    return ['pf_mark', 'P', a_, px_, str(self.t)]
+            return ['pf_mark', 'P', a_, px_, self.adv()]
         a = rng.choice(self.assets)
+        if self.twin and a == self.assets[1]:
+            a = self.assets[0]
         net = mp.pos[a].net if a in mp.pos else 0
         x = rng.random()
         if net and abs(net) > 20 and rng.random() < 0.1:
@@ -183,7 +195,11 @@ class PGen(object):
             q = max(1, int(10 ** rng.uniform(0, 5))) * rng.choice([1, -1])
         price = bw.rand_price(rng)
         self.n += 1
-        return ['pf_txn', 'P', self.adv(), a, q, price, comm_for(rng, self.mode, price, q), 'R%d' % self.n]
+        comm = comm_for(rng, self.mode, price, q)
+        t_ = self.adv()
+        if self.twin and a == self.assets[0]:
+            self.queue.append(['pf_txn', 'P', t_, self.assets[1], q, price, comm, 'T%d' % self.n])
+        return ['pf_txn', 'P', t_, a, q, price, comm, 'R%d' % self.n]
 
 
 def random_ladder(rng, acc, prop, nops, faults):
